@@ -83,7 +83,7 @@ def dump_var_entry(v):
 
 def dump_ndarray(a):
     a = np.asarray(a)
-    return ["nd", a.dtype.kind, list(a.shape), _tolist(a)]
+    return ["nd", a.dtype.kind + (str(a.dtype.itemsize) if a.dtype.kind in "iuf" else ""), list(a.shape), _tolist(a)]
 
 
 def _tolist(a):
@@ -94,7 +94,7 @@ def _tolist(a):
 
 
 def dump_poly(p):
-    d = {"k": "poly", "cls": clsname(p), "dt": p.dtype.kind, "shape": list(p.shape),
+    d = {"k": "poly", "cls": clsname(p), "dt": p.dtype.kind + str(p.dtype.itemsize), "shape": list(p.shape),
          "m": _tolist(np.asarray(p)),
          "vars": [dump_var_entry(v) for v in np.asarray(p.variables, dtype=object).ravel().tolist()]
          if getattr(p, "variables", None) is not None else None,
